@@ -319,11 +319,23 @@ fn sigmf_inputs(opts: &Opts, rep: &mut Report, rng: &mut Rng) {
                 rep.count("sigmf_accepted", 1);
                 let dut = Dut { name: "SigMFSource".into(), params: json!({"kind": kind}), block: Box::new(src), ins: vec![], outs: vec![Box::new(CopyOut::new(o))], keeps_history: 0, cleanup: None };
                 let mut run = Runner::new(dut);
-                for _ in 0..400 {
+                let mut quiet = 0;
+                for _ in 0..2000 {
                     let c = run.work();
                     run.drain(0, usize::MAX / 4);
                     if run.dead || c.verdict == Verdict::Eof {
                         break;
+                    }
+                    // The output is always drained here: a call that neither moves
+                    // data nor ends the stream has nothing to wait for.
+                    if c.moved_any() {
+                        quiet = 0;
+                    } else {
+                        quiet += 1;
+                        if quiet >= 64 {
+                            rep.violation("C15|SigMFSource(read)|spins-forever", format!("64 consecutive work() calls with an empty output stream moved nothing and did not end the stream (verdict {:?}); input kind {kind}", c.verdict), replay.clone());
+                            break;
+                        }
                     }
                 }
                 if let Some(l) = run.last_calls.last() {
